@@ -143,9 +143,12 @@ prop('C09', title='Name representations (URI, component list, wire) are mutually
                 'constructors; and for the URI PRINTERS over a structured-text abstraction: Component.to_canonical_uri / to_str (decimal type '
                 'prefix unless generic, sha256digest= / params-sha256= hex forms, seg= off= v= t= seq= decimal forms, value bytes in order, each '
                 'of the 256 byte values rendered as the URI scheme says - tabulated from the real nested function) and Name.to_str / '
-                'to_canonical_uri (leading slash, every component in order, trailing slash exactly for an empty last component).',
+                'to_canonical_uri (leading slash, every component in order, trailing slash exactly for an empty last component); '
+                'Name.is_prefix on component lists of any length: True exactly when lhs is not longer and every component equals the '
+                'one of rhs at its position byte for byte (list equality = quantified byte-string equality); Name.from_bytes = the '
+                'component list of Name.decode.',
      level_note='The URI PARSERS (Component.from_str, Name.from_str, escape_str) - hence every round trip through text, the normalisation of '
-                'text input forms, is_prefix and canonical ordering - are a bounded stand-in (exhaustive over a small alphabet + random names): '
+                'text input forms, is_prefix on text forms and canonical ordering - are a bounded stand-in (exhaustive over a small alphabet + random names): '
                 'their character loops need an inductive position argument that this engine does not carry (DESIGN.md 6/C09).',
      technique=T_MIXED)
 prop('C10', title='Link-layer envelopes are transparent: Nack, PIT token and wrapped packets', level='proof',
